@@ -57,6 +57,16 @@ def gen_cases(ctx):
         spinfree = [k for k in gen.L_KINDS if k != "pure_spin"]
         if c["L"]["kind"] == "pure_spin":
             c["L"]["kind"] = str(rng.choice(spinfree))
+        if rng.random() < 0.5:
+            # coordinate-aligned flows (many exactly-zero tensor entries) of non-unit amplitude are where frame-dependent
+            # shortcuts ("already diagonal", "only the xz entry matters") hide; the rotated copy is fully generic
+            c["L"]["kind"] = str(rng.choice(["simple_shear", "simple_shear", "pure_shear", "axisym_comp", "axisym_ext"]))
+            c["L"]["mode"] = str(rng.choice(["const", "multirate"]))
+            c["L"]["k"] = float(rng.choice([0.5, 3.0, 1e-3, 1e2]))
+            if c["L"]["mode"] == "multirate":
+                c["L"]["rho"] = float(rng.choice([1e-1, 1e-2]))
+            if c["params"]["gbm_mobility"] == 0:
+                c["params"]["gbm_mobility"] = 125.0
         c["L"]["kind2"] = str(rng.choice(spinfree))
         yield c
 
